@@ -6,9 +6,11 @@
 
   §A  the box (any linearly ordered field): the periodic longitude interval and the latitude
       interval only grow and contain the inserted point (`insert_contains`, `insert_grows`), hence
-      the box contains every point ever inserted (`box_contains_all_inserted`); longitudes inside a
-      non-wrapping window narrower than half a turn give exactly `[min, max]`, the shortest
-      covering interval (`insert_minimal_partial`; the wrapping window is tested, not proved);
+      the box contains every point ever inserted (`box_contains_all_inserted`); if the inserted
+      longitudes fit in ANY window narrower than half a turn — wrapping through 0 or not — the
+      interval is exactly the arc from the first to the last point of the window
+      (`insert_minimal`), independent of the insertion order (`insert_order_irrelevant`), and no
+      covering arc is narrower (`insert_minimal_shortest`);
   §B  the loops: the REPAIRED normal-face loop encloses every corner and both extremes of every
       edge (`lat_encloses_nodes`, `lat_encloses_second_nodes`); the AS-IS `if/elif/else` chain does
       not (`asis_skips_corner`, decided on a concrete triangle); the AS-IS pole loop stretches the
@@ -29,8 +31,9 @@
       (`lat_encloses_every_arc_point`).
 
   Not proved (decided by the driver's sampling oracle on every generated face): that the parity
-  flag agrees with "the pole is strictly inside" (it does not always, see above); minimality of
-  the longitude interval when the face wraps through longitude 0; tightness by attainment (proved
+  flag agrees with "the pole is strictly inside" (it does not always, see above); that the corner
+  longitudes of a face span its boundary (longitude is monotone along an arc that misses the poles
+  — geometry, used by the oracle); tightness by attainment (proved
   for the latitude bounds of normal faces by `lat_bounds_attained`; pole faces and the longitude
   ends are tested); IEEE rounding and the `ERROR_TOLERANCE` clip / pole snap of the float code.
 -/
@@ -224,13 +227,11 @@ example : ([Pt.at (10 : ℚ) 350, Pt.at 20 355, Pt.at 15 5].foldl
     (insertPt ⟨90, 360, id⟩) Box.empty).Has 20 355 :=
   box_contains_all_inserted ⟨90, 360, id⟩ _ _ 20 355 (by norm_num) (by simp)
 
-/-- minimality, non-wrapping case: if every inserted longitude lies in a window `[A, B]` narrower
-    than half a turn that does not wrap through 0, the interval is exactly `[min, max]` of the
-    inserted longitudes — the shortest interval covering them.
-    (Full statement, not proved here: the same for a window that wraps through 0,
-     `∀ xs, (∀ x ∈ xs, A ≤ x ∨ x ≤ B) → B < A → twoPi − A + B < twoPi/2 → …`; it is covered by the
-     driver's `hullLon` comparison on every generated face.) -/
-theorem insert_minimal_partial (twoPi A B : K) (hA : 0 ≤ A) (hB : B < twoPi)
+/-- minimality, non-wrapping special case stated on the raw longitudes: if every inserted longitude
+    lies in a window `[A, B]` narrower than half a turn that does not wrap through 0, the interval is
+    exactly `[min, max]` of the inserted longitudes.  (The general statement, wrapping windows
+    included, is `insert_minimal` below.) -/
+theorem insert_minimal_nowrap (twoPi A B : K) (hA : 0 ≤ A) (hB : B < twoPi)
     (hw : B - A < twoPi / 2) (xs : List K) (lo hi : K)
     (hlo : A ≤ lo) (hlh : lo ≤ hi) (hhi : hi ≤ B) (hxs : ∀ x ∈ xs, A ≤ x ∧ x ≤ B) :
     xs.foldl (fun q x => growLon twoPi (some q) x) (lo, hi)
@@ -276,11 +277,280 @@ theorem insert_minimal_partial (twoPi A B : K) (hA : 0 ≤ A) (hB : B < twoPi)
       (max_le hhi hx.2) hrest
 
 example : [(40 : ℚ), 10, 25].foldl (fun q x => growLon 360 (some q) x) (30, 30) = (10, 40) := by
-  rw [insert_minimal_partial 360 5 50 (by norm_num) (by norm_num) (by norm_num) _ 30 30
+  rw [insert_minimal_nowrap 360 5 50 (by norm_num) (by norm_num) (by norm_num) _ 30 30
     (by norm_num) (by norm_num) (by norm_num) (by norm_num)]
   norm_num
 
 end box
+
+/-! ### minimality of the longitude interval, wrapping windows included -/
+section minimal
+variable {K : Type} [Field K] [LinearOrder K] [IsStrictOrderedRing K]
+
+/-- the longitude at arc-offset `o` from the window start `s` (period `T`) -/
+def pos (T s o : K) : K := if s + o < T then s + o else s + o - T
+
+theorem pos_cases (T s o : K) :
+    (s + o < T ∧ pos T s o = s + o) ∨ (T ≤ s + o ∧ pos T s o = s + o - T) := by
+  unfold pos
+  by_cases h : s + o < T
+  · exact Or.inl ⟨h, by rw [if_pos h]⟩
+  · exact Or.inr ⟨not_lt.mp h, by rw [if_neg h]⟩
+
+section win
+variable (T s L : K) (hs0 : 0 ≤ s) (hsT : s < T) (hL : 2 * L < T)
+include hs0 hsT hL
+
+theorem width_fwd (o1 o2 : K) (h1 : 0 ≤ o1) (h12 : o1 ≤ o2) (h2 : o2 ≤ L) :
+    lonWidth T (pos T s o1) (pos T s o2) = o2 - o1 := by
+  rcases pos_cases T s o1 with ⟨c1, e1⟩ | ⟨c1, e1⟩ <;> rcases pos_cases T s o2 with ⟨c2, e2⟩ | ⟨c2, e2⟩ <;>
+    (rw [e1, e2]; unfold lonWidth; split_ifs <;> linarith)
+
+theorem width_bwd (o1 o2 : K) (h2 : 0 ≤ o2) (h21 : o2 < o1) (h1 : o1 ≤ L) :
+    lonWidth T (pos T s o1) (pos T s o2) = T - (o1 - o2) := by
+  rcases pos_cases T s o1 with ⟨c1, e1⟩ | ⟨c1, e1⟩ <;> rcases pos_cases T s o2 with ⟨c2, e2⟩ | ⟨c2, e2⟩ <;>
+    (rw [e1, e2]; unfold lonWidth; split_ifs <;> linarith)
+
+theorem inLon_inside (a b o : K) (ha : 0 ≤ a) (hb : b ≤ L) (hao : a ≤ o) (hob : o ≤ b) :
+    InLon (pos T s a) (pos T s b) (pos T s o) := by
+  rcases pos_cases T s a with ⟨ca, ea⟩ | ⟨ca, ea⟩ <;> rcases pos_cases T s b with ⟨cb, eb⟩ | ⟨cb, eb⟩ <;>
+    rcases pos_cases T s o with ⟨co, eo⟩ | ⟨co, eo⟩ <;>
+    (rw [ea, eb, eo]; unfold InLon; split_ifs <;>
+      first
+        | exact ⟨by linarith, by linarith⟩
+        | exact Or.inl (by linarith)
+        | exact Or.inr (by linarith))
+
+theorem inLon_below (a b o : K) (ho : 0 ≤ o) (hb : b ≤ L) (hoa : o < a) (hab : a ≤ b) :
+    ¬ InLon (pos T s a) (pos T s b) (pos T s o) := by
+  rcases pos_cases T s a with ⟨ca, ea⟩ | ⟨ca, ea⟩ <;> rcases pos_cases T s b with ⟨cb, eb⟩ | ⟨cb, eb⟩ <;>
+    rcases pos_cases T s o with ⟨co, eo⟩ | ⟨co, eo⟩ <;>
+    (rw [ea, eb, eo]; unfold InLon; intro h; split_ifs at h <;>
+      first
+        | (obtain ⟨h1, h2⟩ := h; linarith)
+        | (rcases h with h | h <;> linarith))
+
+theorem inLon_above (a b o : K) (ha : 0 ≤ a) (hab : a ≤ b) (hbo : b < o) (ho : o ≤ L) :
+    ¬ InLon (pos T s a) (pos T s b) (pos T s o) := by
+  rcases pos_cases T s a with ⟨ca, ea⟩ | ⟨ca, ea⟩ <;> rcases pos_cases T s b with ⟨cb, eb⟩ | ⟨cb, eb⟩ <;>
+    rcases pos_cases T s o with ⟨co, eo⟩ | ⟨co, eo⟩ <;>
+    (rw [ea, eb, eo]; unfold InLon; intro h; split_ifs at h <;>
+      first
+        | (obtain ⟨h1, h2⟩ := h; linarith)
+        | (rcases h with h | h <;> linarith))
+
+theorem growLon_window_step (a b o : K) (ha : 0 ≤ a) (hab : a ≤ b) (hb : b ≤ L)
+    (ho0 : 0 ≤ o) (hoL : o ≤ L) :
+    growLon T (some (pos T s a, pos T s b)) (pos T s o)
+      = (pos T s (min a o), pos T s (max b o)) := by
+  simp only [growLon]
+  rcases lt_or_ge o a with hoa | hao
+  · have hout := (lonOutside_iff _ _ _).mpr (inLon_below T s L hs0 hsT hL a b o ho0 hb hoa hab)
+    rw [if_pos hout, width_fwd T s L hs0 hsT hL o b ho0 (by linarith) hb,
+      width_bwd T s L hs0 hsT hL a o ho0 hoa (by linarith)]
+    rw [if_pos (by linarith), min_eq_right hoa.le, max_eq_left (by linarith)]
+  · rcases lt_or_ge b o with hbo | hob
+    · have hout := (lonOutside_iff _ _ _).mpr (inLon_above T s L hs0 hsT hL a b o ha hab hbo hoL)
+      rw [if_pos hout, width_bwd T s L hs0 hsT hL o b (by linarith) hbo hoL,
+        width_fwd T s L hs0 hsT hL a o ha hao hoL]
+      rw [if_neg (by linarith), min_eq_left hao, max_eq_right hbo.le]
+    · have hin := inLon_inside T s L hs0 hsT hL a b o ha hb hao hob
+      have hno : ¬ lonOutside (pos T s a) (pos T s b) (pos T s o) = true :=
+        fun h => (lonOutside_iff _ _ _).mp h hin
+      rw [if_neg hno, min_eq_left hao, max_eq_left hob]
+end win
+
+section fold
+variable (T s L : K) (hs0 : 0 ≤ s) (hsT : s < T) (hL : 2 * L < T)
+include hs0 hsT hL
+
+theorem foldl_growLon_window (os : List K) (a b : K) (ha : 0 ≤ a) (hab : a ≤ b) (hb : b ≤ L)
+    (hos : ∀ o ∈ os, 0 ≤ o ∧ o ≤ L) :
+    (os.map (pos T s)).foldl (fun q x => growLon T (some q) x) (pos T s a, pos T s b)
+      = (pos T s (os.foldl min a), pos T s (os.foldl max b)) := by
+  induction os generalizing a b with
+  | nil => rfl
+  | cons o os ih =>
+    have ho := hos o List.mem_cons_self
+    simp only [List.map_cons, List.foldl_cons]
+    rw [growLon_window_step T s L hs0 hsT hL a b o ha hab hb ho.1 ho.2]
+    exact ih (min a o) (max b o) (le_min ha ho.1) (le_trans (min_le_left _ _) (le_trans hab (le_max_left _ _)))
+      (max_le hb ho.2) (fun x hx => hos x (List.mem_cons_of_mem _ hx))
+end fold
+
+/-- the longitude row of the box after inserting a list of points only depends on the longitudes -/
+theorem foldl_insertPt_lon (c : Consts K) (pts : List (K × K)) (b : Box K) (q : K × K)
+    (hb : b.lon = some q) :
+    (pts.foldl (fun b p => insertPt c b (.at p.1 p.2)) b).lon
+      = some ((pts.map fun p => c.norm p.2).foldl (fun q x => growLon c.twoPi (some q) x) q) := by
+  induction pts generalizing b q with
+  | nil => exact hb
+  | cons p ps ih =>
+    simp only [List.foldl_cons, List.map_cons]
+    apply ih
+    show some (growLon c.twoPi b.lon (c.norm p.2)) = _
+    rw [hb]
+
+theorem foldl_min_le_init (os : List K) (a : K) : os.foldl min a ≤ a := by
+  induction os generalizing a with
+  | nil => exact le_refl _
+  | cons o os ih => exact le_trans (ih _) (min_le_left _ _)
+theorem init_le_foldl_max (os : List K) (a : K) : a ≤ os.foldl max a := by
+  induction os generalizing a with
+  | nil => exact le_refl _
+  | cons o os ih => exact le_trans (le_max_left _ _) (ih _)
+
+section main
+open List
+variable (c : Consts K) (s L : K) (hs0 : 0 ≤ s) (hsT : s < c.twoPi) (hL : 2 * L < c.twoPi)
+include hs0 hsT hL
+
+/-- **insert_minimal** (wrapping windows included): let every inserted longitude lie in a window
+    that starts at `s ∈ [0, 2π)`, runs eastwards for `L < π` and may wrap through 0 — i.e. the
+    normalised longitude of each point is `pos 2π s o` for an offset `o ∈ [0, L]`.  Then, whatever
+    the order of insertion, the longitude row of the box built by `_insert_pt_in_latlonbox` from
+    the empty box is exactly `[pos (min offset), pos (max offset)]`: the arc from the westernmost to
+    the easternmost inserted point inside the window. -/
+theorem insert_minimal (off : K → K) (p : K × K) (ps : List (K × K))
+    (hwin : ∀ q ∈ p :: ps, c.norm q.2 = pos c.twoPi s (off q.2) ∧ 0 ≤ off q.2 ∧ off q.2 ≤ L) :
+    ((p :: ps).foldl (fun b q => insertPt c b (.at q.1 q.2)) Box.empty).lon
+      = some (pos c.twoPi s (((p :: ps).map fun q => off q.2).foldl min L),
+              pos c.twoPi s (((p :: ps).map fun q => off q.2).foldl max 0)) := by
+  have hp := hwin p mem_cons_self
+  have hps : ∀ q ∈ ps, c.norm q.2 = pos c.twoPi s (off q.2) ∧ 0 ≤ off q.2 ∧ off q.2 ≤ L :=
+    fun q hq => hwin q (mem_cons_of_mem _ hq)
+  simp only [foldl_cons, map_cons]
+  have h0 : (insertPt c Box.empty (.at p.1 p.2)).lon
+      = some (pos c.twoPi s (off p.2), pos c.twoPi s (off p.2)) := by
+    show some (growLon c.twoPi none (c.norm p.2)) = _
+    rw [hp.1]; rfl
+  rw [foldl_insertPt_lon c ps _ _ h0]
+  have hmap : (ps.map fun q => c.norm q.2) = (ps.map fun q => off q.2).map (pos c.twoPi s) := by
+    rw [map_map]
+    exact map_congr_left (fun q hq => (hps q hq).1)
+  rw [hmap, foldl_growLon_window c.twoPi s L hs0 hsT hL _ _ _ hp.2.1 (le_refl _) hp.2.2
+    (fun o ho => by
+      obtain ⟨q, hq, rfl⟩ := mem_map.mp ho
+      exact (hps q hq).2)]
+  rw [min_eq_right hp.2.2, max_eq_right hp.2.1]
+
+/-- **insert_order_irrelevant**: any permutation of the inserted points gives the same longitude
+    interval (traversal start and orientation of a face do not matter). -/
+theorem insert_order_irrelevant (off : K → K) (l₁ l₂ : List (K × K)) (hperm : l₁ ~ l₂) (hne : l₁ ≠ [])
+    (hwin : ∀ q ∈ l₁, c.norm q.2 = pos c.twoPi s (off q.2) ∧ 0 ≤ off q.2 ∧ off q.2 ≤ L) :
+    (l₁.foldl (fun b q => insertPt c b (.at q.1 q.2)) Box.empty).lon
+      = (l₂.foldl (fun b q => insertPt c b (.at q.1 q.2)) Box.empty).lon := by
+  have hwin2 : ∀ q ∈ l₂, c.norm q.2 = pos c.twoPi s (off q.2) ∧ 0 ≤ off q.2 ∧ off q.2 ≤ L :=
+    fun q hq => hwin q (hperm.mem_iff.mpr hq)
+  have hne2 : l₂ ≠ [] := fun h => hne (by rw [h] at hperm; exact hperm.eq_nil)
+  obtain ⟨p, ps, rfl⟩ := exists_cons_of_ne_nil hne
+  obtain ⟨p', ps', rfl⟩ := exists_cons_of_ne_nil hne2
+  rw [insert_minimal c s L hs0 hsT hL off p ps hwin, insert_minimal c s L hs0 hsT hL off p' ps' hwin2]
+  have hm : ((p :: ps).map fun q => off q.2) ~ ((p' :: ps').map fun q => off q.2) := hperm.map _
+  rw [hm.foldl_eq' (fun x _ y _ z => min_right_comm z x y) L,
+      hm.foldl_eq' (fun x _ y _ z => max_right_comm z x y) 0]
+end main
+
+theorem foldl_min_mem (os : List K) (a : K) : os.foldl min a = a ∨ os.foldl min a ∈ os := by
+  induction os generalizing a with
+  | nil => exact Or.inl rfl
+  | cons o os ih =>
+    simp only [List.foldl_cons, List.mem_cons]
+    rcases ih (min a o) with h | h
+    · rw [h]
+      rcases min_choice a o with h' | h'
+      · exact Or.inl h'
+      · exact Or.inr (Or.inl h')
+    · exact Or.inr (Or.inr h)
+theorem foldl_max_mem (os : List K) (a : K) : os.foldl max a = a ∨ os.foldl max a ∈ os := by
+  induction os generalizing a with
+  | nil => exact Or.inl rfl
+  | cons o os ih =>
+    simp only [List.foldl_cons, List.mem_cons]
+    rcases ih (max a o) with h | h
+    · rw [h]
+      rcases max_choice a o with h' | h'
+      · exact Or.inl h'
+      · exact Or.inr (Or.inl h')
+    · exact Or.inr (Or.inr h)
+
+section short
+variable (T s L : K) (hs0 : 0 ≤ s) (hsT : s < T) (hL : 2 * L < T)
+include hs0 hsT hL
+
+/-- any arc `[lo, hi]` (wrapping or not) that contains the two window points at offsets
+    `m ≤ M` is at least `M − m` wide -/
+theorem cover_width_ge (lo hi m M : K) (hlo : 0 ≤ lo ∧ lo < T) (hhi : 0 ≤ hi ∧ hi < T)
+    (hm : 0 ≤ m) (hmM : m ≤ M) (hM : M ≤ L)
+    (h1 : InLon lo hi (pos T s m)) (h2 : InLon lo hi (pos T s M)) : M - m ≤ lonWidth T lo hi := by
+  rcases pos_cases T s m with ⟨cm, em⟩ | ⟨cm, em⟩ <;> rcases pos_cases T s M with ⟨cM, eM⟩ | ⟨cM, eM⟩ <;>
+    (rw [em] at h1; rw [eM] at h2; unfold InLon at h1 h2; unfold lonWidth
+     split_ifs at h1 h2 ⊢ <;>
+      first
+        | (obtain ⟨a1, a2⟩ := h1; obtain ⟨b1, b2⟩ := h2; linarith)
+        | (rcases h1 with h1 | h1 <;> rcases h2 with h2 | h2 <;> linarith))
+end short
+
+section shortest
+open List
+variable (c : Consts K) (s L : K) (hs0 : 0 ≤ s) (hsT : s < c.twoPi) (hL : 2 * L < c.twoPi)
+include hs0 hsT hL
+
+/-- **insert_minimal_shortest**: the interval of `insert_minimal` IS a shortest covering arc — every
+    arc `[lo, hi]` (wrapping or not) that contains all inserted longitudes is at least as wide. -/
+theorem insert_minimal_shortest (off : K → K) (p : K × K) (ps : List (K × K))
+    (hwin : ∀ q ∈ p :: ps, c.norm q.2 = pos c.twoPi s (off q.2) ∧ 0 ≤ off q.2 ∧ off q.2 ≤ L)
+    (lo hi : K) (hlo : 0 ≤ lo ∧ lo < c.twoPi) (hhi : 0 ≤ hi ∧ hi < c.twoPi)
+    (hcov : ∀ q ∈ p :: ps, InLon lo hi (c.norm q.2)) :
+    ∃ r, ((p :: ps).foldl (fun b q => insertPt c b (.at q.1 q.2)) Box.empty).lon = some r ∧
+      lonWidth c.twoPi r.1 r.2 ≤ lonWidth c.twoPi lo hi := by
+  refine ⟨_, insert_minimal c s L hs0 hsT hL off p ps hwin, ?_⟩
+  set os := (p :: ps).map fun q => off q.2 with hos
+  have hall : ∀ o ∈ os, 0 ≤ o ∧ o ≤ L ∧ InLon lo hi (pos c.twoPi s o) := by
+    intro o ho
+    obtain ⟨q, hq, rfl⟩ := mem_map.mp ho
+    have h := hwin q hq
+    exact ⟨h.2.1, h.2.2, by rw [← h.1]; exact hcov q hq⟩
+  have hp := hwin p mem_cons_self
+  have hos' : os = off p.2 :: ps.map fun q => off q.2 := by rw [hos, map_cons]
+  -- the minimum and the maximum are offsets of inserted points
+  have hmin_mem : os.foldl min L ∈ os := by
+    rw [hos', foldl_cons, min_eq_right hp.2.2]
+    rcases foldl_min_mem (ps.map fun q => off q.2) (off p.2) with h | h
+    · rw [h]; exact mem_cons_self
+    · exact mem_cons_of_mem _ h
+  have hmax_mem : os.foldl max 0 ∈ os := by
+    rw [hos', foldl_cons, max_eq_right hp.2.1]
+    rcases foldl_max_mem (ps.map fun q => off q.2) (off p.2) with h | h
+    · rw [h]; exact mem_cons_self
+    · exact mem_cons_of_mem _ h
+  have hmM : os.foldl min L ≤ os.foldl max 0 := by
+    have h1 : os.foldl min L ≤ off p.2 := by
+      rw [hos', foldl_cons, min_eq_right hp.2.2]; exact foldl_min_le_init _ _
+    have h2 : off p.2 ≤ os.foldl max 0 := by
+      rw [hos', foldl_cons, max_eq_right hp.2.1]; exact init_le_foldl_max _ _
+    exact le_trans h1 h2
+  have hm := hall _ hmin_mem
+  have hM := hall _ hmax_mem
+  show lonWidth c.twoPi (pos c.twoPi s (os.foldl min L)) (pos c.twoPi s (os.foldl max 0)) ≤ _
+  rw [width_fwd c.twoPi s L hs0 hsT hL _ _ hm.1 hmM hM.2.1]
+  exact cover_width_ge c.twoPi s L hs0 hsT hL lo hi _ _ hlo hhi hm.1 hmM hM.2.1 hm.2.2 hM.2.2
+end shortest
+
+/-- non-vacuity: period 360, window starting at 350° of length 30° (wraps through 0); the points
+    355°, 5°, 352° give `[352°, 5°]` -/
+example : ([((0 : ℚ), (355 : ℚ)), (0, 5), (0, 352)].foldl
+    (fun b q => insertPt ⟨90, 360, id⟩ b (.at q.1 q.2)) Box.empty).lon = some (352, 5) := by
+  have h := insert_minimal (K := ℚ) ⟨90, 360, id⟩ 350 30 (by norm_num) (by norm_num) (by norm_num)
+    (fun x => if 350 ≤ x then x - 350 else x + 10) (0, 355) [(0, 5), (0, 352)]
+    (by
+      intro q hq
+      simp only [List.mem_cons, List.not_mem_nil, or_false] at hq
+      rcases hq with rfl | rfl | rfl <;> norm_num [pos])
+  rw [h]
+  norm_num [pos]
+
+end minimal
 
 /-! ## §B the loops -/
 section loops
